@@ -163,10 +163,10 @@ def run(ck):
     crystalStars.zeroclean = _fastclean
     ck.note("crystalStars.zeroclean replaced by its vectorised equivalent in this process (expansions are not observed by C26)")
     rng = ck.rng
-    ncrys = ck.n(9, 36)
+    ncrys = ck.n(6, 36)
     vm_max_states = ck.n(140, 320)          # VacancyMediated construction cost grows fast
-    coq_cost_budget = ck.n(2.2e8, 8e8)      # sum of transitions * |G| * states sent to the model
-    coq_case_max = ck.n(3e7, 2.5e8)
+    coq_cost_budget = ck.n(7e7, 8e8)      # sum of transitions * |G| * states sent to the model
+    coq_case_max = ck.n(1.5e7, 2.5e8)
     defs, runs, meta = [], [], []
     skipped = {"nonpercolating": 0, "construct-failed": 0, "geometry": 0, "coq-budget": 0, "vacancymediated-too-large": 0}
 
@@ -291,7 +291,7 @@ def run(ck):
             else:
                 skipped["vacancymediated-too-large"] += 1
         # ---- history tier: the SAME objects asked again after their range changed (grown and shrunk) --------------------
-        if in_corpus or ncr - len(corpus) <= ck.n(4, 16):
+        if in_corpus or ncr - len(corpus) <= ck.n(2, 16):
             def fresh_starset(N, o):
                 Sf = crystalStars.StarSet(jn, crys, chem, N, originstates=o)
                 f1, ft1, _ = Sf.jumpnetwork_omega1(); f2, ft2, _ = Sf.jumpnetwork_omega2()
@@ -329,7 +329,7 @@ def run(ck):
                 hstats["vacancymediated-too-large"] += 1
     codes = []
     try:
-        codes = sc.run_chunks(ck, "omega", "".join(defs), runs, OMEGA_IMPORTS, chunk=12)
+        codes = sc.run_chunks(ck, "omega", "".join(defs), runs, OMEGA_IMPORTS, chunk=5, workers=6)
     except CoqFailure as e:
         ck.broken_proof = "correspondence Model/OmegaNet.run_omega: %s" % e
     for info, c in zip(meta, codes):
